@@ -293,14 +293,24 @@ def metric_partition_family(draw):
             coords[d] = {"values": None, "attrs": {}}
             gcoords[a][p] = d
     subsets = [list(s) for k in (1, 2) for s in itertools.combinations(axes, k)]
-    chosen = [s for s in subsets if draw(st.sampled_from([True, True, False]))]
+    shape = draw(st.sampled_from(["singles", "pair+single", "random", "random"]))
+    if shape == "singles":
+        # the request is covered only by the product of three one-axis metrics
+        chosen = [[a] for a in axes]
+    elif shape == "pair+single":
+        pair = draw(st.sampled_from([s for s in subsets if len(s) == 2]))
+        chosen = [s for s in subsets if len(s) == 1] if draw(st.booleans()) else [[a] for a in axes if a not in pair]
+        chosen = chosen + [pair]
+    else:
+        chosen = [s for s in subsets if draw(st.sampled_from([True, True, False]))]
+    den = draw(st.sampled_from([8.0, 7.0, 10.0]))  # non-dyadic metric values: the order of the factors shows in the last bit
     vars_ = {}
     metrics = []
     for k, s in enumerate(chosen):
         pos = [draw(st.sampled_from(positions[a])) for a in s]
         dl = [dtok(a, p) for a, p in zip(s, pos)]
         name = "M" + "".join(s) + str(k)
-        vars_[name] = {"dims": dl, "values": draw(gen.data_values([dims[d] for d in dl], elements=st.integers(1, 40).map(lambda q: q / 8.0 + 3 * k)))}
+        vars_[name] = {"dims": dl, "values": draw(gen.data_values([dims[d] for d in dl], elements=st.integers(1, 40).map(lambda q: q / den + 3 * k)))}
         metrics.append([s, [name]])
     dl = draw(gen.permutations_of([dtok(a, "center") for a in axes]))
     arrays = {"A0": {"dims": dl, "values": draw(gen.data_values([dims[d] for d in dl], elements=ints)), "name": None}}
